@@ -83,6 +83,10 @@ impl<A: AcceptableMasterList, C: Clock, F: Filter, R: Rng, S: PtpInstanceStateMu
                         .chunks_exact(8)
                         .map(|ci| ClockIdentity(<[u8; 8]>::try_from(ci).unwrap()))
                         .collect();
+                } else {
+                    // The parent does not send a path (anymore): forget the path we
+                    // learned earlier, possibly from a previous parent (16.2.3).
+                    path_trace_ds.list.clear();
                 }
 
                 false
